@@ -116,6 +116,172 @@ fn run_restart(dir: &std::path::Path, p: &Pop) -> Result<(Built, JobResult), Str
     Ok((b, first))
 }
 
+// ---------------------------------------------------------------------------------------------
+// (e) flush and compaction interleaved: a flush runs while the compaction task is held at a gate
+//     (mode A), and a compaction round runs while a flush task is held at a gate (mode B);
+//     afterwards: release, read, clean restart, read.
+// ---------------------------------------------------------------------------------------------
+
+#[derive(Debug, Clone, Serialize)]
+struct Race {
+    pop: Pop,
+    /// true: compaction held, flush runs; false: flush held, compaction runs
+    compaction_held: bool,
+    park: Option<(String, usize, u64, usize)>,
+}
+
+struct RaceBuilt {
+    lives: Vec<Vec<Op>>,
+    /// (life, op index, stage, events stored before it)
+    observes: Vec<(usize, usize, String, Vec<Ev>)>,
+    /// op index (life 0) of the step that runs the un-held activity, for gate recording
+    flush_ops: (usize, usize),
+    compact_op: usize,
+}
+
+fn build_race(r: &Race) -> RaceBuilt {
+    let b = build(&r.pop, None);
+    // keep: defines, population, 'before' observe
+    let cut = b.observes[0].0 + 1;
+    let mut ops: Vec<Op> = b.ops[..cut].to_vec();
+    let mut events: Vec<Ev> = b.events.clone();
+    let mut observes = vec![(0usize, b.observes[0].0, "before".to_string(), events.clone())];
+    let cap = r.pop.cfg.capacity();
+    let mut k = events.len() as i64;
+    let mut store_all = |ops: &mut Vec<Op>, events: &mut Vec<Ev>| -> (usize, usize) {
+        let from = ops.len();
+        for i in 0..cap {
+            let e = if i % 2 == 0 { Ev { k, typ: "a".into(), ctx: "c0".into() } } else { Ev { k, typ: "b".into(), ctx: "c1".into() } };
+            k += 1;
+            ops.push(Op::Cmd { text: e.store_cmd() });
+            events.push(e);
+        }
+        (from, ops.len())
+    };
+    let mut flush_ops = (0, 0);
+    let mut compact_op = 0;
+    match (&r.park, r.compaction_held) {
+        (None, true) => {
+            // recording run A: one compaction round, then the flush
+            compact_op = ops.len();
+            ops.push(Op::Compact { shard: 0 });
+            flush_ops = store_all(&mut ops, &mut events);
+        }
+        (None, false) => {
+            flush_ops = store_all(&mut ops, &mut events);
+            compact_op = ops.len();
+            ops.push(Op::Compact { shard: 0 });
+        }
+        (Some(g), true) => {
+            ops.push(Op::Park { gate: g.0.clone(), shard: g.1, seg: Some(g.2), nth: g.3 });
+            ops.push(Op::CompactBg { shard: 0 });
+            flush_ops = store_all(&mut ops, &mut events);
+            observes.push((0, ops.len(), format!("compaction held at {}, flush done", g.0), events.clone()));
+            ops.push(Op::Observe { queries: suite_q() });
+            ops.push(Op::Resume);
+        }
+        (Some(g), false) => {
+            ops.push(Op::Park { gate: g.0.clone(), shard: g.1, seg: Some(g.2), nth: g.3 });
+            flush_ops = store_all(&mut ops, &mut events);
+            ops.push(Op::CompactBg { shard: 0 });
+            observes.push((0, ops.len(), format!("flush held at {}, compaction started", g.0), events.clone()));
+            ops.push(Op::Observe { queries: suite_q() });
+            ops.push(Op::Resume);
+        }
+    }
+    ops.push(Op::Barrier);
+    observes.push((0, ops.len(), "both finished".to_string(), events.clone()));
+    ops.push(Op::Observe { queries: suite_q() });
+    ops.push(Op::ShutdownSeq);
+    observes.push((1, 0, "after clean restart".to_string(), events.clone()));
+    let life1 = vec![Op::Observe { queries: suite_q() }];
+    RaceBuilt { lives: vec![ops, life1], observes, flush_ops, compact_op }
+}
+
+fn run_race(dir: &std::path::Path, r: &Race) -> Result<(RaceBuilt, Vec<JobResult>), String> {
+    let b = build_race(r);
+    let lives: Vec<LifeSpec> = b.lives.iter().map(|ops| LifeSpec { ops: ops.clone(), snap: SnapMode::Off, fsmon: true }).collect();
+    let rr = run_lifetimes(dir, &r.pop.cfg, 9, &lives, false)?;
+    let _ = std::fs::remove_dir_all(dir);
+    for x in &rr {
+        if let Some(e) = &x.error {
+            return Err(format!("engine error: {e}"));
+        }
+    }
+    Ok((b, rr))
+}
+
+/// (key, what, tag) per failing answer
+fn judge_race(r: &Race, b: &RaceBuilt, rr: &[JobResult]) -> (Vec<(String, String, String)>, usize) {
+    let mut out = Vec::new();
+    let mut reads = 0;
+    let id = format!("race {}|segs={:?} k={}|park={:?}", if r.compaction_held { "A" } else { "B" }, r.pop.segs, r.pop.cfg.segments_per_merge, r.park.as_ref().map(|p| (&p.0, p.2, p.3)));
+    for (li, x) in rr.iter().enumerate() {
+        for (i, st) in x.steps.iter().enumerate() {
+            if st.blocked {
+                out.push((format!("{id}|life {li} op {i}|blocked"), "operation blocked".to_string(), "blocked".to_string()));
+            }
+            if st.note.contains("error=") || st.note.contains("bg_error") || st.note.contains("bg_blocked") {
+                out.push((format!("{id}|life {li} op {i}|error"), format!("background task: {}", st.note), "compaction-error".to_string()));
+            }
+        }
+        for v in &x.monitor {
+            out.push((format!("{id}|life {li}|fsmon"), v.clone(), "fsmon".to_string()));
+        }
+    }
+    let mut pre_wrong: BTreeSet<String> = BTreeSet::new();
+    for (li, opi, stage, events) in &b.observes {
+        let Some(step) = rr.get(*li).and_then(|x| x.steps.get(*opi)) else { continue };
+        if step.replies.len() < 10 {
+            continue;
+        }
+        reads += step.replies.len();
+        let o = parse_obs(&step.replies[..6], &TYPES, &CTXS);
+        let mut answers: Vec<(String, Vec<i64>, Vec<i64>)> = Vec::new();
+        for (ti, t) in TYPES.iter().enumerate() {
+            let mut want: Vec<i64> = events.iter().filter(|e| e.typ == *t).map(|e| e.k).collect();
+            want.sort();
+            answers.push((format!("QUERY {t}"), o.query.get(*t).cloned().unwrap_or_default(), want.clone()));
+            answers.push((format!("COUNT {t}"), vec![o.count.get(*t).copied().unwrap_or(0)], vec![want.len() as i64]));
+            let mut gf: Vec<i64> = step.replies[6 + ti].rows.iter().filter_map(|row| row.get("k").and_then(|v| v.as_i64())).collect();
+            gf.sort();
+            answers.push((format!("QUERY {t} WHERE k >= 3"), gf, want.iter().copied().filter(|k| *k >= 3).collect()));
+        }
+        for (t, c) in [("a", "c0"), ("b", "c1")] {
+            let mut wr: Vec<i64> = events.iter().filter(|e| e.typ == t && e.ctx == c).map(|e| e.k).collect();
+            wr.sort();
+            let mut gr: Vec<i64> = o.replay.get(c).map(|v| v.iter().map(|x| x.1).collect()).unwrap_or_default();
+            gr.sort();
+            answers.push((format!("REPLAY {t} FOR {c}"), gr, wr));
+        }
+        for e in &o.errors {
+            out.push((format!("{id}|{stage}|read-error"), format!("error: {e}"), "read-error".to_string()));
+        }
+        for (label, got, want) in answers {
+            if stage == "before" {
+                if got != want {
+                    pre_wrong.insert(label);
+                }
+                continue;
+            }
+            if pre_wrong.contains(&label) {
+                continue;
+            }
+            if got != want {
+                let more = if label.starts_with("COUNT") { got[0] > want[0] } else { got.len() > want.len() };
+                let tag = match (label.starts_with("COUNT"), more) {
+                    (true, true) => "count-high",
+                    (true, false) => "count-low",
+                    (false, true) => "dup-rows",
+                    (false, false) => "lost-rows",
+                };
+                out.push((format!("{id}|{stage}|{label}"), format!("{label}: stored {want:?}, returned {got:?}"), tag.to_string()));
+            }
+        }
+    }
+    (out, reads)
+}
+
 #[derive(Debug, Clone, Serialize)]
 struct Finding {
     pop: Pop,
@@ -305,6 +471,62 @@ pub fn check(tier: &str) -> i32 {
             }
         }
     }
+    // (e) flush / compaction interleavings
+    let race_pops: Vec<Pop> = {
+        let shapes: Vec<Vec<u8>> = if tier == "quick" { vec![vec![1, 1], vec![3, 1, 3]] } else { vec![vec![1, 1], vec![3, 3], vec![3, 1, 3], vec![1, 2, 3], vec![1, 1, 1, 1]] };
+        let ks: Vec<usize> = if tier == "quick" { vec![2] } else { vec![2, 3] };
+        ks.iter().flat_map(|k| shapes.iter().map(move |sg| Pop { cfg: SysConfig { fill_factor: 3, event_per_zone: 2, segments_per_merge: *k, ..Default::default() }, segs: sg.clone(), rounds: 1 })).collect()
+    };
+    let mut races: Vec<Race> = Vec::new();
+    let rec: Vec<Race> = race_pops.iter().flat_map(|p| [true, false].into_iter().map(move |m| Race { pop: p.clone(), compaction_held: m, park: None })).collect();
+    let rec_res = par_map(&rec, threads(), |i, r| run_race(&scratch.dir.join(format!("er{i}")), r));
+    let mut race_failing: Vec<(String, String, String)> = Vec::new();
+    for (i, rr) in rec_res.iter().enumerate() {
+        match rr {
+            Err(e) => machinery.push(e.clone()),
+            Ok((b, jr)) => {
+                let (f, n) = judge_race(&rec[i], b, jr);
+                race_failing.extend(f);
+                reads += n;
+                // gates of the activity that will be held
+                let mut seen: BTreeMap<(String, usize, u64), usize> = BTreeMap::new();
+                for g in jr[0].gates.iter() {
+                    let in_compaction = g.op == b.compact_op && (g.gate.starts_with("compact.") || g.gate.starts_with("zone."));
+                    let in_flush = g.op >= b.flush_ops.0 && g.op < b.flush_ops.1 && (g.gate.starts_with("flush.") || g.gate.starts_with("zone."));
+                    if (rec[i].compaction_held && in_compaction) || (!rec[i].compaction_held && in_flush) {
+                        let n = seen.entry((g.gate.clone(), g.shard, g.seg)).or_insert(0);
+                        races.push(Race { pop: rec[i].pop.clone(), compaction_held: rec[i].compaction_held, park: Some((g.gate.clone(), g.shard, g.seg, *n)) });
+                        *n += 1;
+                    }
+                }
+            }
+        }
+    }
+    if tier == "quick" {
+        // every second gate point
+        let mut i = 0;
+        races.retain(|_| {
+            i += 1;
+            i % 2 == 0
+        });
+    }
+    let race_res = par_map(&races, threads(), |i, r| run_race(&scratch.dir.join(format!("e{i}")), r));
+    let mut race_held = 0usize;
+    for (i, rr) in race_res.iter().enumerate() {
+        match rr {
+            Err(e) => machinery.push(e.clone()),
+            Ok((b, jr)) => {
+                if jr[0].gates.iter().any(|g| g.parked) {
+                    race_held += 1;
+                } else {
+                    machinery.push(format!("race trap never hit: {:?}", races[i].park));
+                }
+                let (f, n) = judge_race(&races[i], b, jr);
+                race_failing.extend(f);
+                reads += n;
+            }
+        }
+    }
     // (c) crash points of compaction rounds, via the C01 machinery
     use Tok::*;
     let crash_hist: Vec<Vec<Tok>> = vec![
@@ -371,6 +593,10 @@ pub fn check(tier: &str) -> i32 {
             }
         })
         .collect();
+    let mut failing = failing;
+    for (key, what, tag) in &race_failing {
+        failing.push(crate::golden::Failing { key: key.clone(), digest: crate::golden::digest(what), class: format!("{tag} (flush and compaction interleaved)"), detail: json!({"case": key, "what": what}) });
+    }
     let verdict = crate::golden::judge("C05", tier, &failing);
     let mut nv = crate::golden::report("C05", &verdict, &|c| kf.describe("C05", c.split(' ').next().unwrap_or("")), 5);
     for (t, n) in &crash_known {
@@ -397,6 +623,8 @@ pub fn check(tier: &str) -> i32 {
             "transitions": reads,
             "traces_validated_against_impl": pops.len() + sched.len() + pops_d.len() + cst.histories + cst.recoveries,
             "populations_followed_through_a_clean_restart": pops_d.len(),
+            "flush_compaction_interleavings": races.len(),
+            "interleavings_in_which_the_trap_was_hit": race_held,
             "samples": pops.iter().step_by((pops.len() / 6).max(1)).take(6).map(|p| json!({"types_per_segment": p.segs, "segments_per_merge": p.cfg.segments_per_merge, "rounds": p.rounds})).collect::<Vec<_>>(),
             "segment_populations": pops.len(),
             "distinct_live_list_shapes": live_shapes.len(),
@@ -407,7 +635,7 @@ pub fn check(tier: &str) -> i32 {
             "read_commands_judged": reads,
             "distinct_outcomes": outcomes.len(),
             "exhaustive": tier != "quick",
-            "explanation": "(a) every assignment of {a, b, a+b} to n L0 segments (two rows per present type, one per context) x fan-in k in {2,3}, three compaction rounds (forced leftover merges and level cascades included), observation suite after every round compared with the stored events; (b) for a subset, the compaction task is held at every gate of its first round (inside the zone writer, after the output is written, after the index swap, after the batch commit, before reclaim) while the suite is read, then released; (c) crash at every FS-mutation boundary of compaction histories with recovery judged by the C01 oracle",
+            "explanation": "(a) every assignment of {a, b, a+b} to n L0 segments (two rows per present type, one per context) x fan-in k in {2,3}, three compaction rounds (forced leftover merges and level cascades included), observation suite after every round compared with the stored events; (b) for a subset, the compaction task is held at every gate of its first round (inside the zone writer, after the output is written, after the index swap, after the batch commit, before reclaim) while the suite is read, then released; (c) crash at every FS-mutation boundary of compaction histories with recovery judged by the C01 oracle; (d) populations followed through a clean shutdown and a fresh process; (e) flush and compaction interleaved: the compaction round is held at each of its gates while capacity STOREs trigger a flush, and a flush is held at each of its gates while a compaction round is started; reads while held, after both finished and after a clean restart",
         }),
         assumptions: vec!["compaction is triggered through the real CompactionWorker with the shard's own live list and flush lock (body of the background loop without sleep and pressure probes)".into(), "reads use typed REPLAY and a type-private COUNT predicate (wildcard REPLAY and the aggregate type leak are reported under C04 / C09)".into()],
         wall_s: t0.elapsed().as_secs_f64(),
